@@ -57,7 +57,9 @@ Docs ==
              Fld(12, "ta", << Fld(13, "p", <<>>) >>) >>),
      \* 7: lists of enum values (nullable and non-null list), union resolved through IsTypeOf
      QDoc(<< Fld(1, "a", <<>>), Fld(2, "el", <<>>), Fld(3, "eln", <<>>), Fld(4, "e", <<>>),
-             Fld(5, "uo", << Fld(6, "__typename", <<>>), Inl(7, "TA", << Fld(8, "p", <<>>) >>) >>) >>)
+             Fld(5, "uo", << Fld(6, "__typename", <<>>), Inl(7, "TA", << Fld(8, "p", <<>>) >>) >>) >>),
+     \* 8: Int leaves (nullable, non-null, under an object) fed with every Go integer representation
+     QDoc(<< Fld(1, "a", <<>>), Fld(2, "nn", <<>>), Fld(3, "o", << Fld(4, "w", <<>>), Fld(5, "x", <<>>) >>) >>)
   >>
 
 Site(t, f, src, kind) == [t |-> t, f |-> f, src |-> src, kind |-> kind]
@@ -80,16 +82,20 @@ Sites ==
         Site("Q", "itl", "*", "absTlist"), Site("Q", "ta", "*", "objT"), Site("TA", "x", "r.it", "str"),
         Site("TB", "q", "r.it", "str") >>,
      << Site("Q", "a", "*", "int"), Site("Q", "el", "*", "enumlist"), Site("Q", "eln", "*", "enumlist"),
-        Site("Q", "e", "*", "enum"), Site("Q", "uo", "*", "absU") >>
+        Site("Q", "e", "*", "enum"), Site("Q", "uo", "*", "absU") >>,
+     << Site("Q", "a", "*", "goint"), Site("Q", "nn", "*", "goint"), Site("O", "w", "r.o", "goint") >>
   >>
 
 K(k) == [k |-> k]
-TKinds == {"absT", "absTlist", "objT", "enumlist", "absU"}
+TKinds == {"absT", "absTlist", "objT", "enumlist", "absU", "goint"}
+GoInt(g, big) == [k |-> "goint", g |-> g, big |-> big]
 TAlpha(kind) ==
   CASE kind = "absT" -> { K("nil"), K("err"), [k |-> "val", rt |-> "TB"], [k |-> "val", rt |-> "O"], [k |-> "val", rt |-> "-"], K("wrong") }
     [] kind = "absTlist" -> { K("nil"), [k |-> "val", rts |-> <<"TB", "TA">>], [k |-> "val", rts |-> <<"TA", "A">>], K("nilitem") }
     [] kind = "enumlist" -> { K("nil"), K("err"), K("nilitem"), K("wrongitem"), K("wrong"), K("thunk") }
     [] kind = "absU" -> { K("nil"), [k |-> "val", rt |-> "*"], [k |-> "val", rt |-> "TA"], [k |-> "val", rt |-> "A"], [k |-> "val", rt |-> "-"] }
+    [] kind = "goint" -> { GoInt(g, FALSE) : g \in {"i8", "i16", "i32", "i64", "u8", "u16", "u32", "u64", "uint", "f32", "f64", "pint", "pi64", "pu32", "pf64", "nilp"} }
+                         \cup { GoInt(g, TRUE) : g \in {"i64", "u32", "u64", "uint", "f32", "f64", "pi64", "pu32", "pf64"} }
     [] kind = "objT" -> { K("nil"), K("err"), [k |-> "val", rt |-> "TB"], K("typednil") }
 
 SiteAlpha(kind) ==
